@@ -35,8 +35,8 @@ RULE = ("Hypothesis-generated programs: 1–3 groups placed 40 m apart, each a c
         "(viewer Point / OrientedPoint / ego with view angles and visible distance, an occluding "
         "or non-occluding wall, a target with `visible from`, `not visible from` or "
         "requireVisible); optional 3D or polygonal workspace; 0–3 hard/soft user predicates over "
-        "positions, distances and params; 2D and 3D mode; each scenario sampled 5–30 times on the "
-        "same Scenario object (generate / generateBatch / checker switches) with an injected "
+        "positions, distances and params; 2D and 3D mode; each scenario sampled 3–25 times on the "
+        "same Scenario object (3–10 operations: generate / generateBatch / checker switches; maxIterations 60) with an injected "
         "perf_counter sequence.  Non-trivial = at least one returned scene needed >= 2 iterations "
         "and the checker's requirement order changed at least once; distinct = SHA-1 of the case.")
 ASSUMPTIONS = [
@@ -51,7 +51,7 @@ ASSUMPTIONS = [
 
 U = c04.U
 SPACING = 40.0
-MAXIT = 100
+MAXIT = 60
 
 # --------------------------------------------------------------------------------------------
 # strategy: program IR
@@ -112,7 +112,7 @@ def cluster(draw, g, mode2D, names):
     for i in range(n):
         name = f"o{len(names)}"
         names.append(name)
-        dims = [draw(U(0.4, 1.0)) * step for _ in range(3)]
+        dims = [draw(U(0.7, 1.6)) * step for _ in range(3)]
         k = slots[i] - (n - 1) / 2
         hx, hy = cx + k * step * math.cos(th), cy + k * step * math.sin(th)
         w = step * draw(U(0.3, 1.6))
@@ -124,7 +124,7 @@ def cluster(draw, g, mode2D, names):
             return rng(h - width / 2, h + width / 2)
 
         o = {"name": name, "shape": draw(obj_shapes(mode2D)), "dims": [round(d, 3) for d in dims],
-             "pos": [co(hx, w), co(hy, w), const(0.0) if mode2D else co(cz, w)],
+             "pos": [co(hx, w), co(hy, w), const(0.0) if mode2D else co(cz, 0.5 * w)],
              "yaw": draw(angle()),
              "pitch": const(0.0) if mode2D else draw(angle(planar=None)),
              "roll": const(0.0) if mode2D else draw(angle()),
@@ -318,7 +318,7 @@ def cases(draw):
         else:
             ws = {"k": "box", "dims": [xs[1] - xs[0], 60.0, 40.0], "ypr": [0.0, 0.0, 0.0],
                   "pos": [(xs[0] + xs[1]) / 2, 5.0, 0.0]}
-    nops = draw(st.integers(4, 14))
+    nops = draw(st.integers(3, 10))
     ops = []
     for _ in range(nops):
         ops.append(draw(st.sampled_from([["gen"], ["gen"], ["gen"], ["gen"], ["batch", 2], ["batch", 3],
@@ -334,8 +334,16 @@ def cases(draw):
 # --------------------------------------------------------------------------------------------
 
 
-def ev(v):
-    return repr(v[1]) if v[0] == "c" else f"Range({v[1]!r}, {v[2]!r})"
+def ev(v, pre=None):
+    """A value as Scenic text.  Ranges are bound to a variable on a line of their own (`pre`):
+    a call nested in a parenthesised specifier argument makes the PEG parser backtrack a lot."""
+    if v[0] == "c":
+        return repr(v[1])
+    if pre is None:
+        return f"Range({v[1]!r}, {v[2]!r})"
+    name = f"x{len(pre)}_{pre[0]}"
+    pre.append(f"{name} = Range({v[1]!r}, {v[2]!r})")
+    return name
 
 
 def all_objects(case):
@@ -365,8 +373,16 @@ def emit(case):
         reg, _, _ = c04.build_region(case["workspace"])
         add(f"workspace = Workspace({inject('ws', reg)})")
 
-    def vec(p):
-        return f"({ev(p[0])}, {ev(p[1])})" if mode2D else f"({ev(p[0])}, {ev(p[1])}, {ev(p[2])})"
+    def vec(p, pre):
+        return f"({ev(p[0], pre)}, {ev(p[1], pre)})" if mode2D else \
+            f"({ev(p[0], pre)}, {ev(p[1], pre)}, {ev(p[2], pre)})"
+
+    def va(v):
+        # 2D compatibility mode builds its (2D) visible regions from the Scenic-2 property
+        # `viewAngle`; `viewAngles` is derived from it, so that is what a 2D program sets
+        if mode2D:
+            return f"with viewAngle {v['angles'][0]!r} deg"
+        return f"with viewAngles ({v['angles'][0]!r} deg, {v['angles'][1]!r} deg)"
 
     vnames = {}
     for gi, g in enumerate(case["groups"]):
@@ -380,31 +396,39 @@ def emit(case):
             vnames[gi] = f"v{gi}"
         elif v["kind"] == "opoint":
             add(f"v{gi} = new OrientedPoint at {pos}, with yaw {v['yaw']!r}, with pitch {v['pitch']!r}, "
-                f"with viewAngles ({v['angles'][0]!r} deg, {v['angles'][1]!r} deg), "
-                f"with visibleDistance {v['dist']!r}")
+                f"{va(v)}, with visibleDistance {v['dist']!r}")
             vnames[gi] = f"v{gi}"
         else:
             add(f"ego = new Object at {pos}, with yaw {v['yaw']!r}, with pitch {v['pitch']!r}, "
-                f"with viewAngles ({v['angles'][0]!r} deg, {v['angles'][1]!r} deg), "
+                f"{va(v)}, "
                 f"with visibleDistance {v['dist']!r}, with width 0.5, with length 0.5, with height 0.5, "
                 f"with name \"ego\", with occluding False")
             vnames[gi] = "ego"
     for gi, g in enumerate(case["groups"]):
         for o in g["objs"]:
             shape, _, _ = c04.get_shape(o["shape"])
-            sp = [f"{o['name']} = new Object at {vec(o['pos'])}",
-                  f"with yaw {ev(o['yaw'])}"]
-            if not mode2D:
-                sp += [f"with pitch {ev(o['pitch'])}", f"with roll {ev(o['roll'])}"]
+            # specifiers with default values are left out (the parser's cost grows with them)
+            pre = [o["name"]]
+            sp = [f"{o['name']} = new Object at {vec(o['pos'], pre)}"]
+            for prop in ("yaw",) if mode2D else ("yaw", "pitch", "roll"):
+                if o[prop] != ["c", 0.0]:
+                    sp.append(f"with {prop} {ev(o[prop], pre)}")
+            for l in pre[1:]:
+                add(l)
             sp += [f"with width {o['dims'][0]!r}", f"with length {o['dims'][1]!r}",
-                   f"with height {o['dims'][2]!r}", f"with shape {inject('s', shape)}",
-                   f"with name \"{o['name']}\"", f"with allowCollisions {o['allowCollisions']}",
-                   f"with occluding {o['occluding']}"]
+                   f"with height {o['dims'][2]!r}", f"with name \"{o['name']}\""]
+            if o["shape"]["k"] != "box":
+                sp.append(f"with shape {inject('s', shape)}")
+            if o["allowCollisions"]:
+                sp.append("with allowCollisions True")
+            if o["occluding"] != (not mode2D):
+                sp.append(f"with occluding {o['occluding']}")
             if o.get("container"):
                 reg, _, _ = c04.build_region(o["container"])
                 sp.append(f"with regionContainedIn {inject('r', reg)}")
             vis = o.get("vis")
-            sp.append(f"with requireVisible {vis == 'requireVisible'}")
+            if (vis == "requireVisible") != mode2D:
+                sp.append(f"with requireVisible {vis == 'requireVisible'}")
             if vis == "requireVisible":
                 pass
             elif vis in ("visible", "not visible"):
@@ -702,6 +726,8 @@ def verify_scene(case, scene, sc, reqlines, out, specs, regions, viewers, nth_vi
             cam = np.array([float(x) for x in e.position])
             R = geo.rot(float(e.yaw), float(e.pitch), float(e.roll))
             angles = [math.radians(a) for a in v["angles"]]
+            if case["mode2D"]:
+                angles[1] = math.pi
         else:
             cam = np.array(v["pos"], float)
             if v["kind"] == "point":
@@ -709,6 +735,8 @@ def verify_scene(case, scene, sc, reqlines, out, specs, regions, viewers, nth_vi
             else:
                 R = geo.rot(v["yaw"], v["pitch"], 0.0)
                 angles = [math.radians(a) for a in v["angles"]]
+                if case["mode2D"]:
+                    angles[1] = math.pi
         margin = 1e-3 * max(1.0, T.size)
         occ = [solids[n] for n in names if n != tname and bool(objs[n].occluding)]
         want_visible = vis in ("visible from", "visible", "requireVisible")
@@ -716,8 +744,6 @@ def verify_scene(case, scene, sc, reqlines, out, specs, regions, viewers, nth_vi
             (("not-visible-from" if vis.startswith("not") else "visible-from")
              + (":first-visibility-requirement" if nth_vis[tname] == 0
                                       else ":later-visibility-requirement"))
-        rotated = R is not None and np.abs(R - np.eye(3)).max() > 1e-12
-        cell += ":viewer-rotated" if rotated else ":viewer-unrotated"
         if want_visible:
             why = wholly_outside_view(cam, R, angles, v["dist"], T, margin)
             if why:
@@ -879,7 +905,7 @@ def replay(case):
 
 
 def plan(tier, seed, jobs):
-    n = 100 if tier == "quick" else 2500
+    n = 60 if tier == "quick" else 1500
     return [{"seed": seed * 1000 + k, "n": n} for k in range(jobs)]
 
 
